@@ -348,7 +348,10 @@ class Prop(PropBase):
                         n = rng.randint(0, min(nmax, L))
                         anchors = [0, L - n, max(0, spf_out - n // 2 - 1), max(0, spf_out * 2 - 1), rng.randint(0, L - n)]
                         o = min(max(0, rng.choice(anchors)), L - n)
-                        ops.append(["read", self._arg(rng, o), self._arg(rng, n), rng.random() < 0.25])
+                        # lazy reads: default chunks, or an explicit chunks= that splits the time axis (an int = chunk length)
+                        lz = rng.random()
+                        ops.append(["read", self._arg(rng, o), self._arg(rng, n),
+                                    False if lz >= 0.3 else (True if lz < 0.15 else rng.choice([1, 2, 3, 5, 7]))])
                     elif r < 0.45:
                         bad = rng.choice([
                             [{"k": "int", "v": -1}, {"k": "int", "v": 1}], [{"k": "int", "v": 0}, {"k": "int", "v": -2}],
@@ -464,7 +467,10 @@ class Prop(PropBase):
                 warnings.simplefilter("ignore")
                 try:
                     if op[0] == "read":
-                        z = r.read(self._mk(op[1]), self._mk(op[2]), use_dask=True) if op[3] else r.read(self._mk(op[1]), self._mk(op[2]))
+                        if op[3] is True or not op[3]:
+                            z = r.read(self._mk(op[1]), self._mk(op[2]), use_dask=True) if op[3] else r.read(self._mk(op[1]), self._mk(op[2]))
+                        else:
+                            z = r.read(self._mk(op[1]), self._mk(op[2]), use_dask=True, chunks=(int(op[3]),) + (-1,) * len(r.sample_shape))
                         if op[3]:
                             o["lazy_events"] = self._events()
                         o["sig"] = self._sig_obs(z, info, f"{ck}/{i}")
